@@ -143,6 +143,24 @@ theorem size_lookup_binary (e : BinEnc) (items : Items) (l : List DiscreteLookup
   unfold BinEnc.calculateSize
   simp [h1, h2, h3, h4, h5, bind, Except.bind, pure, Except.pure, toInt]
 
+/-- Length looked up from criteria, string side: the value of the first entry whose criteria hold — *including an
+    entry whose value is 0* (an empty string; the code skipped such an entry until the `fix:` commit 3790a3b). -/
+theorem size_lookup_string (e : StrEnc) (items : Items) (l : List DiscreteLookup) (v : Int)
+    (h1 : optTruthy e.fixedLength = false) (h3 : e.lookup = some l) (hl : l ≠ [])
+    (h5 : lookupNotNone items l = .ok (.int v)) :
+    e.calculateSize items = .ok v := by
+  unfold StrEnc.calculateSize
+  have hlt : listTruthy (some l) = true := by cases l <;> simp_all [listTruthy]
+  simp [h1, h3, hlt, h5, bind, Except.bind, pure, Except.pure, toInt]
+
+/-- The zero-valued first match of the witness: `[(M != 1 ∧ M >= 0 → 0)]` with `M = 0` gives length 0. -/
+example : (StrEnc.calculateSize
+    { encoding := "UTF-8", fixedLength := none, dynRef := none, useCal := true, adjuster := none, termChar := none,
+      leadingSize := none,
+      lookup := some [{ criteria := [{ requiredValue := "1", ref := "M", op := "!=", useCal := true }], value := .int 0 },
+                      { criteria := [{ requiredValue := "0", ref := "M", op := ">=", useCal := true }], value := .int 16 }] }
+    [("M", mkParam .IntP (.int 0))]).toOption = some 0 := by decide +kernel
+
 /-- In every case the cursor advances by exactly the computed length (binary and string). -/
 theorem cursor_binary (e : BinEnc) (p : Pkt) (v : Param) (r' : Raw) (h : e.parseValue p = .ok (v, r')) :
     ∃ n : Int, e.calculateSize p.items = .ok n ∧ 0 ≤ n ∧ r'.pos = p.raw.pos + n.toNat ∧ r'.data = p.raw.data ∧
